@@ -156,7 +156,7 @@ pub fn vx_into_vec<T>(s: HashSet<T>) -> (r: Vec<T>)
     ensures
         r@.len() == s@.len(),
         forall|k: int| 0 <= k < r@.len() ==> s@.contains(#[trigger] r@[k]),
-        forall|e: T| s@.contains(e) ==> r@.contains(e),
+        forall|e: T| #[trigger] s@.contains(e) ==> exists|k: int| 0 <= k < r@.len() && #[trigger] r@[k] == e,
 { unimplemented!() }
 // A-STD (R-FOREACH stand-in): iteration over `&HashSet` yields a reference to every element exactly once, in SOME order.
 #[verifier::external_body]
@@ -372,7 +372,9 @@ pub broadcast proof fn lemma_add_data(a: &UnificationForest, b: &UnificationFore
 pub broadcast proof fn lemma_set_data(a: &UnificationForest, b: &UnificationForest, x: TypeVariable, d: Set<TypeExpression>)
     requires #[trigger] UnificationForest::set_data_post(a, b, x, d),
     ensures grows(a, b), data_eq_free(a) && eq_free(d) ==> data_eq_free(b),
+        a.dom(x) ==> forall|v: TypeVariable| #[trigger] b.is_root(v) == a.is_root(v),
 {
+    if a.dom(x) { assert forall|v: TypeVariable| #[trigger] b.is_root(v) == a.is_root(v) by { assert(b.dom(v) == (a.dom(v) || v == x)); } }
     assert forall|p: TypeVariable, q: TypeVariable| #[trigger] same_class(a, p, q) implies same_class(b, p, q) by {
         assert(b.dom(p) == (a.dom(p) || p == x)); assert(b.dom(q) == (a.dom(q) || q == x));
     }
@@ -580,6 +582,7 @@ pub broadcast proof fn lemma_fixpoint_is_the_postcondition(f: &UnificationForest
 // TERMINATION NOT CLAIMED: the fixpoint `loop` (loop 4) has no `decreases`; all other loops have one.
 #[verifier::exec_allows_no_decreases_clause]
 #[verifier::loop_isolation(false)]
+#[verifier::allow_complex_invariants]
 //@extract file=src/tc/unification.rs path="fn unify"
 //@ret r
 // R-SIG: the oracle's poll counter is ghost state of the stand-in, so the parameter is `&mut` (see //@dropped)
